@@ -59,12 +59,29 @@ structure TrimCfg where
   highCmp : Cmp
 deriving DecidableEq, Repr
 
+/-- which rows `clean_by_tomo_mask` drops once it has the `subtomo_id`s of the particles of tomogram `t`
+that sit on zero voxels: `byId` is `remove_feature("subtomo_id", ids)` on the WHOLE list (the code up
+to commit 0eff65b: a particle of another tomogram that carries the same id goes as well);
+`byTomoAndId` is `df.loc[~((df["tomo_id"] == t) & df["subtomo_id"].isin(ids))]` (today). -/
+inductive RemoveScope
+  | byId
+  | byTomoAndId
+deriving DecidableEq, Repr, Inhabited
+
 /-- operators of `clean_by_tomo_mask`: inside when `idx <lowCmp> 0` and `idx <highCmp> shape` on all
-axes; removed when additionally `mask <zeroCmp> 0` -/
+axes; removed when additionally `mask <zeroCmp> 0`; `scope` says which rows go for a collected id -/
 structure MaskCfg where
   lowCmp : Cmp
   highCmp : Cmp
   zeroCmp : Cmp
+  scope : RemoveScope
+deriving DecidableEq, Repr
+
+/-- `cryomap.binarize`: a voxel is non-zero when `value <cmp> threshold` (threshold as a ratio) -/
+structure BinarizeCfg where
+  cmp : Cmp
+  thrNum : Nat
+  thrDen : Nat
 deriving DecidableEq, Repr
 
 end CryoCat.C09
